@@ -858,6 +858,74 @@ def gen_views(repo):
     G.define('gen_view2d_write_sites', '(f0 s0 f1 s1 N i j : Z)', 'list (nat * bool * Z * Z)', write_sites,
              V2 + ': non-const 2-D view class, every access site of the parent in all assignment operators (with FASTOR_USE_VECTORISED_EXPR_ASSIGN): '
                   '(0 contiguous vector address &_data[e] / 1 data_setter(_data,_vec,e,stride) / 2 _expr(row,col); inside the `_seq1._step == 1` branch?; e or row; stride or col)')
+    # ---- the compile-time 2-D view class and the dynamic 1-D view class: same census of access sites
+    def enclosing_re(cls, pos, cond_re):
+        depth = 0; k = pos
+        while k > 0:
+            k -= 1
+            if cls[k] == '}': depth += 1
+            elif cls[k] == '{':
+                if depth == 0:
+                    if re.search(cond_re + r'\s*$', cls[:k]): return True
+                else: depth -= 1
+        return False
+    VF2 = 'expressions/views/tensor_fixed_views_2d.h'
+    def fixed_write_sites():
+        txt = preprocess(G.src(VF2), {'NDEBUG', 'FASTOR_USE_VECTORISED_EXPR_ASSIGN'})
+        cls, _ = find_scope(txt, r'struct\s+TensorFixedViewExpr2D\s*<\s*Tensor<T,M,N>\s*,\s*fseq<F0,L0,S0>\s*,\s*fseq<F1,L1,S1>\s*,\s*2\s*>[^{]*\{', 0)
+        mp = re.search(r'static\s+constexpr\s+FASTOR_INDEX\s+Padding\s*=\s*([^;]+);', cls)
+        if not mp: raise XErr('Padding not found')
+        env = ids(['F0', 'S0', 'F1', 'S1', 'N', 'i', 'j'])
+        pad = translate(mp.group(1), 'Z', env, ())[0]; env['Padding'] = (pad, 'n')
+        def tr(e): return '(' + translate(e, 'Z', env, ())[0] + ')%Z'
+        unit = r'FASTOR_IF_CONSTEXPR\s*\(\s*S1\s*==\s*1\s*\)'
+        sites = []
+        for m in re.finditer(r'&_data\s*\[', cls):
+            j = match_close(cls, m.end() - 1, '[', ']')
+            sites.append((m.start(), '(0%%nat, %s, %s, 0%%Z)' % ('true' if enclosing_re(cls, m.start(), unit) else 'false', tr(cls[m.end():j]))))
+        for m in re.finditer(r'data_setter\s*\(', cls):
+            j = match_close(cls, m.end() - 1, '(', ')'); a = split_top(cls[m.end():j])
+            if len(a) != 4 or a[0].strip() != '_data': raise XErr('data_setter arguments: ' + cls[m.end():j][:60])
+            sites.append((m.start(), '(1%%nat, %s, %s, %s)' % ('true' if enclosing_re(cls, m.start(), unit) else 'false', tr(a[2]), tr(a[3]))))
+        for m in re.finditer(r'(?<![\w.])_expr\s*\(', cls):
+            j = match_close(cls, m.end() - 1, '(', ')'); a = split_top(cls[m.end():j])
+            if len(a) != 2: continue
+            sites.append((m.start(), '(2%%nat, %s, %s, %s)' % ('true' if enclosing_re(cls, m.start(), unit) else 'false', tr(a[0]), tr(a[1]))))
+        for m in re.finditer(r'\.store\s*\(', cls):
+            if not re.match(r'\s*&_data\s*\[', cls[m.end():]): raise XErr('a vector store through something else than &_data[..]: ' + cls[m.end():m.end() + 40].strip())
+        if len(sites) < 40: raise XErr('only %d access sites found' % len(sites))
+        return '[' + (';' + NL).join(t for _, t in sorted(sites)) + ']'
+    G.define('gen_fixedview2d_write_sites', '(F0 S0 F1 S1 N i j : Z)', 'list (nat * bool * Z * Z)', fixed_write_sites,
+             VF2 + ': non-const compile-time 2-D view class, every access site of the parent (kinds as for the dynamic class; unit = inside FASTOR_IF_CONSTEXPR (S1==1))')
+    def view1d_write_sites():
+        txt = preprocess(G.src(V1), {'NDEBUG', 'FASTOR_USE_VECTORISED_EXPR_ASSIGN'})
+        cls, _ = find_scope(txt, r'struct\s+TensorViewExpr\s*<\s*Tensor<T,N>\s*,\s*1\s*>[^{]*\{', 0)
+        env = ids(['f', 's', 'i', 'j'])
+        def tr(e, extra=None):
+            for pat, rep in subs1: e = re.sub(pat, rep, e)
+            en = dict(env)
+            if extra: en.update(extra)
+            return '(' + translate(e, 'Z', en, ())[0] + ')%Z'
+        unit = r'if\s*\(\s*_seq\._step\s*==\s*1\s*\)'
+        sites = []
+        for m in re.finditer(r'(&?)_data\s*\[', cls):
+            j = match_close(cls, m.end() - 1, '[', ']'); e = cls[m.end():j].strip()
+            if e == 'idx':
+                # the nearest preceding declaration `auto idx = ...;`
+                ds = list(re.finditer(r'auto\s+idx\s*=\s*([^;]+);', cls[:m.start()]))
+                if not ds: raise XErr('_data[idx] without a declaration of idx')
+                e = ds[-1].group(1)
+            sites.append((m.start(), '(%d%%nat, %s, %s, 0%%Z)' % (0 if m.group(1) else 3, 'true' if enclosing_re(cls, m.start(), unit) else 'false', tr(e))))
+        for m in re.finditer(r'data_setter\s*\(', cls):
+            j = match_close(cls, m.end() - 1, '(', ')'); a = split_top(cls[m.end():j])
+            if len(a) != 4 or a[0].strip() != '_data': raise XErr('data_setter arguments: ' + cls[m.end():j][:60])
+            sites.append((m.start(), '(1%%nat, %s, %s, %s)' % ('true' if enclosing_re(cls, m.start(), unit) else 'false', tr(a[2]), tr(a[3]))))
+        for m in re.finditer(r'\.store\s*\(', cls):
+            if not re.match(r'\s*&_data\s*\[', cls[m.end():]): raise XErr('a vector store through something else than &_data[..]: ' + cls[m.end():m.end() + 40].strip())
+        if len(sites) < 30: raise XErr('only %d access sites found' % len(sites))
+        return '[' + (';' + NL).join(t for _, t in sorted(sites)) + ']'
+    G.define('gen_view1d_write_sites', '(f s i j : Z)', 'list (nat * bool * Z * Z)', view1d_write_sites,
+             V1 + ': non-const 1-D view class, every access site of the parent (0 vector address &_data[e], 1 data_setter, 3 scalar _data[e]; unit = inside `_seq._step == 1`)')
     # ---- tensor/BlockIndexing.h: flat indices precomputed by the index-tensor overloads of operator()
     BI = 'tensor/BlockIndexing.h'
     batoms = [(r'_it0\s*\(\s*i\s*\)', 'a', 'n'), (r'_it1\s*\(\s*j\s*\)', 'b', 'n'), (r'_it0\s*\(\s*j\s*\)', 'b', 'n'),
